@@ -74,6 +74,9 @@ enum Defaults {
     Update(usize, [String; 2]),
     /// struct update syntax over a non-default base: `MVals { a: .., ..base_vals() }`
     UpdateBase(usize, String),
+    /// inline defaults whose field expressions read variables of the *caller* that are named like
+    /// plausible locals of the expansion: `{ n: values.n, k: default_values.k, a: .. }`
+    CallerVars(usize, String),
     /// inline defaults whose field expression is not idempotent: `{ n: tick(), a: .. }` - it must
     /// be evaluated exactly once
     Counted(usize, String),
@@ -136,12 +139,14 @@ fn time_lit(rng: &mut Rng) -> TimeLit {
             _ => {
                 // fractional milliseconds (a float literal with the ms suffix)
                 if rng.chance(0.15) {
-                    let v = *[0.5f32, 1.5, 2.5, 12.5, 62.5, 0.25, 187.5, 0.75, 333.5].get(rng.usize_below(9)).unwrap();
-                    // N ms is N / 1000 s: the f32 nearest to that (IEEE division of two exactly
-                    // representable operands is correctly rounded)
+                    // fractions that are exact in f32 and fractions that are not: "16.7ms" is the
+                    // decimal number 16.7 divided by 1000, rounded to f32 once
+                    let text = *["0.5", "1.5", "2.5", "12.5", "62.5", "0.25", "187.5", "0.75", "333.5", "16.7", "100.1", "250.1", "166.7", "33.3", "0.1", "1234.567"]
+                        .get(rng.usize_below(16))
+                        .unwrap();
                     return TimeLit {
-                        text: format!("{v:?}ms"),
-                        seconds: v / 1000.0f32,
+                        text: format!("{text}ms"),
+                        seconds: (text.parse::<f64>().unwrap() / 1000.0) as f32,
                     };
                 }
                 // milliseconds: round values and arbitrary ones ("700ms" is the f32 0.7, the
@@ -200,12 +205,19 @@ fn gen_tl(rng: &mut Rng, allow_default_body: bool, need_keyframe: bool) -> Tl {
             _ => {
                 // N% with both readings of the documentation agreeing (N * 0.01 == N / 100 in f32)
                 loop {
-                    let (text, n) = if rng.chance(0.7) {
+                    let (text, n) = if rng.chance(0.6) {
                         let n = rng.range(1, 99) as f32;
                         (format!("{}", n as i64), n)
-                    } else {
+                    } else if rng.chance(0.6) {
                         let n = rng.range(2, 198) as f32 / 2.0;
                         (format!("{n:?}"), n)
+                    } else {
+                        // tenths: not exact in f32 ("16.7%" is the decimal 16.7 divided by 100,
+                        // rounded once)
+                        let tenths = rng.range(1, 999);
+                        let text = format!("{}.{}", tenths / 10, tenths % 10);
+                        let pos = (text.parse::<f64>().unwrap() / 100.0) as f32;
+                        break (Pos::Pct(text, pos), tenths as u32);
                     };
                     // N% is the position N / 100: the f32 nearest to that
                     break (Pos::Pct(text, n / 100.0), (n * 10.0) as u32);
@@ -432,8 +444,13 @@ fn gen_animator(rng: &mut Rng) -> Animator {
                     Defaults::UpdateBase(rng.usize_below(4), value_lit(rng, 0))
                 }
                 _ => {
-                    features.push("default-inline-non-idempotent");
-                    Defaults::Counted(rng.usize_below(4), value_lit(rng, 0))
+                    if rng.chance(0.5) {
+                        features.push("default-inline-non-idempotent");
+                        Defaults::Counted(rng.usize_below(4), value_lit(rng, 0))
+                    } else {
+                        features.push("default-inline-reads-caller-variables-named-like-macro-locals");
+                        Defaults::CallerVars(rng.usize_below(4), value_lit(rng, 0))
+                    }
                 }
             },
         },
@@ -640,6 +657,9 @@ fn render_macro(a: &Animator) -> String {
         Defaults::Counted(st, a0) => {
             let _ = writeln!(s, "    default(MSt::S{st}, {{ n: tick(), a: {a0} }}),");
         }
+        Defaults::CallerVars(st, a0) => {
+            let _ = writeln!(s, "    default(MSt::S{st}, {{ n: values.n, k: default_values.k, a: {a0} }}),");
+        }
     }
     let arms: Vec<String> = a
         .arms
@@ -717,6 +737,10 @@ fn render_builder(a: &Animator) -> String {
             // tick() is reset before each twin is built and must be evaluated exactly once: 1
             let _ = writeln!(s, "        let default_values = MVals {{ a: {a0}, b: 0.0, n: 1, k: 0 }};");
         }
+        Defaults::CallerVars(_, a0) => {
+            // the caller's `values` holds n = 55, the caller's `default_values` holds k = 9
+            let _ = writeln!(s, "        let default_values = MVals {{ a: {a0}, b: 0.0, n: 55, k: 9 }};");
+        }
     }
     s.push_str("        let _ = &default_values;\n");
     s.push_str("        StateAnimatorBuilder::<MSt, MValsTimeline>::new()\n");
@@ -730,6 +754,7 @@ fn render_builder(a: &Animator) -> String {
         | Defaults::Call(st, _)
         | Defaults::Update(st, _)
         | Defaults::UpdateBase(st, _)
+        | Defaults::CallerVars(st, _)
         | Defaults::Counted(st, _) => {
             let _ = writeln!(defaults, "            .from_state(MSt::S{st})");
         }
@@ -789,10 +814,11 @@ fn main() {
         let bld = render_builder(&a);
         let _ = writeln!(out, "#[allow(clippy::all)]\nfn pair_{i}() -> (BoxedAnimator, BoxedAnimator) {{");
         let _ = writeln!(out, "    reset_tick();");
-        if a.arms.iter().any(|arm| arm.user_variable.is_some()) {
-            // a variable of the caller that happens to be named like a local of the expansion
-            let _ = writeln!(out, "    let default_values = MVals {{ a: 0.0, b: 0.0, n: 77, k: 0 }};");
-            let _ = writeln!(out, "    let _ = &default_values;");
+        if a.arms.iter().any(|arm| arm.user_variable.is_some()) || matches!(a.defaults, Defaults::CallerVars(..)) {
+            // variables of the caller that happen to be named like plausible locals of the expansion
+            let _ = writeln!(out, "    let default_values = MVals {{ a: 0.0, b: 0.0, n: 77, k: 9 }};");
+            let _ = writeln!(out, "    let values = MVals {{ a: 0.0, b: 0.0, n: 55, k: 3 }};");
+            let _ = writeln!(out, "    let _ = (&default_values, &values);");
         }
         let _ = writeln!(out, "    let from_macro = {mac};");
         let _ = writeln!(out, "    let from_builder = {bld};");
